@@ -83,6 +83,9 @@ func runC20(r *run) {
 		for i := 0; i < nc; i++ {
 			emit(caseT{"concurrent", []string{fmt.Sprint(2 + i%7), fmt.Sprint(1 + i%3)}})
 		}
+		for i := 0; i < nc; i++ {
+			emit(caseT{"concdebug", []string{fmt.Sprint(4 + i%9), fmt.Sprint(i)}})
+		}
 	}
 	driveCases(r, gen, execC20)
 	r.finish(nil)
@@ -314,6 +317,67 @@ func execC20(r *run, c caseT) {
 	}
 	if c.op == "priority" {
 		execPriority(r, c)
+		return
+	}
+	if c.op == "concdebug" {
+		// a set that has created nothing yet, in debug mode: the first requests all at once, by
+		// every creating entry point (each of them also marks the set as in use)
+		var k int
+		fmt.Sscanf(c.args[0], "%d", &k)
+		files := map[string]string{"a.tpl": "A{% include \"b.tpl\" %}", "b.tpl": "B"}
+		set := pongo2.NewSet("concdebug", newMemLoader(files))
+		set.Debug = true
+		outs := make([]string, k)
+		var wg sync.WaitGroup
+		start := make(chan struct{})
+		for gi := 0; gi < k; gi++ {
+			wg.Add(1)
+			go func(gi int) {
+				defer wg.Done()
+				<-start
+				var out string
+				var err error
+				switch gi % 6 {
+				case 0:
+					var t *pongo2.Template
+					if t, err = set.FromCache("a.tpl"); err == nil {
+						out, err = t.Execute(nil)
+					}
+				case 1:
+					var t *pongo2.Template
+					if t, err = set.FromFile("a.tpl"); err == nil {
+						out, err = t.Execute(nil)
+					}
+				case 2:
+					out, err = set.RenderTemplateFile("a.tpl", nil)
+				case 3:
+					out, err = set.RenderTemplateString("A{% include \"b.tpl\" %}", nil)
+				case 4:
+					out, err = set.RenderTemplateBytes([]byte("A{% include \"b.tpl\" %}"), nil)
+				default:
+					// (configuration calls such as BanTag are not part of this: the set is to be
+					// configured before it is used)
+					var t *pongo2.Template
+					if t, err = set.FromBytes([]byte("A{% include \"b.tpl\" %}")); err == nil {
+						out, err = t.Execute(nil)
+					}
+				}
+				if err != nil {
+					out = "err:" + err.Error()
+				}
+				outs[gi] = out
+			}(gi)
+		}
+		close(start)
+		wg.Wait()
+		id := r.emit(c.op, c.args, "concdebug")
+		r.nontrivial("concdebug" + c.args[0] + c.args[1])
+		for gi, o := range outs {
+			if o != "AB" {
+				r.reject(id, "one of the first, simultaneous requests to a fresh set in debug mode failed", map[string]any{"goroutine": gi, "observed": o})
+				return
+			}
+		}
 		return
 	}
 	if c.op == "concurrent" {
